@@ -143,6 +143,36 @@ def cg (u : Update) (numIters : Nat) (stop : K → Bool) (lam : K) (x0 : V) (y :
 def conjGradForward (u : Update) (numIters : Nat) (stop : K → Bool) (lam : K) (y : W) (z : V) : V :=
   cg o u numIters stop lam z y z
 
+/-! ### `cg` on a batch: the stopping test couples the samples
+
+Everything in `cg` is per sample (`complex_dot_product` reduces over all axes but batch and complex) except the
+`break` test `rk_norm_sq_new.abs().sqrt().mean() < self.tol`, a mean over the batch (and the (re, im) pair). -/
+
+/-- one sample of a batch: its operators (sensitivity map, mask) and data -/
+structure Sample (K : Type u) (V : Type v) (W : Type w) where
+  o : Ops K V W
+  x0 : V
+  y : W
+  z : V
+
+/-- the loop body applied to every sample -/
+def stepAll (steps : List (CGState K V → CGState K V)) (ss : List (CGState K V)) : List (CGState K V) :=
+  List.zipWith (fun f s => f s) steps ss
+
+/-- the loop of `cg` on a batch; `stopB` sees the new squared residual norms of ALL samples -/
+def cgLoopBatch (steps : List (CGState K V → CGState K V)) (stopB : List K → Bool) :
+    Nat → List (CGState K V) → List V
+  | 0, ss => ss.map (·.x)
+  | n + 1, ss =>
+    let ss' := stepAll steps ss
+    if stopB (ss'.map (·.rr)) then ss'.map (·.x) else cgLoopBatch steps stopB n ss'
+
+/-- `ConjGrad.cg` on a batch (shared `lambd`, `num_iters`, `tol`, update type) -/
+def cgBatch (u : Update) (numIters : Nat) (stopB : List K → Bool) (lam : K) (samples : List (Sample K V W)) :
+    List V :=
+  cgLoopBatch (samples.map fun s => cgStep s.o u (bOp s.o lam)) stopB numIters
+    (samples.map fun s => cgInit s.o lam s.y s.z s.x0)
+
 end Blocks
 
 /-! ## The same physics re-implemented inside the unrolled models (phase 2)
@@ -162,6 +192,14 @@ variable {K : Type u} {V : Type v} {W : Type w} (o : Ops K V W)
 /-- `_forward_operator(image, mask, S)` of LPDNet / CrossDomainNetwork (XPDNet) / JointICNet /
 IterDualNet / MRIModelEngine, and the k-space update of KIKINet: `A x = M F E x`. -/
 def aOp (x : V) : W := o.mask (o.fwd (o.expand x))
+
+/-- SENSE combination `reduce_operator(backward_operator(k), S)` (no mask): the image the regularisers
+of EndToEndVarNetBlock / RecurrentVarNetBlock / CIRIM see, and the initialisation of VSharpNet /
+IterDualNet (there applied to the already masked k-space). -/
+def sense (k : W) : V := o.reduce (o.bwd k)
+
+/-- `forward_operator(expand_operator(x, S))` (no mask): regulariser output back to k-space. -/
+def feOp (x : V) : W := o.fwd (o.expand x)
 
 /-- soft data consistency in k-space of EndToEndVarNetBlock, RecurrentVarNetBlock, CIRIM:
 `where(mask == 0, 0, current_kspace − masked_kspace) = M (k − y)`. -/
@@ -294,6 +332,37 @@ def aStarPlan : Plan :=
 def aStarAPlan : Plan :=
   { nodes := [⟨.param 0, []⟩, ⟨.expand, [0]⟩, ⟨.fwd, [1]⟩, ⟨.mask, [2]⟩, ⟨.bwd, [3]⟩, ⟨.reduce, [4]⟩],
     outs := [5] }
+
+/-! ### plans of the phase-2 sites (used only when the translator has to skip a site) -/
+def softDCPlan : Plan := { nodes := [⟨.param 0, []⟩, ⟨.param 1, []⟩, ⟨.sub, [0, 1]⟩, ⟨.mask, [2]⟩], outs := [3] }
+def sensePlan : Plan := { nodes := [⟨.param 0, []⟩, ⟨.bwd, [0]⟩, ⟨.reduce, [1]⟩], outs := [2] }
+def senseFirstPlan : Plan :=
+  { nodes := [⟨.param 0, []⟩, ⟨.bwd, [0]⟩, ⟨.reduce, [1]⟩, ⟨.toFirst, [2]⟩], outs := [3] }
+def senseYPlan : Plan := { nodes := [⟨.param 1, []⟩, ⟨.bwd, [0]⟩, ⟨.reduce, [1]⟩], outs := [2] }
+def feOpPlan : Plan := { nodes := [⟨.param 0, []⟩, ⟨.expand, [0]⟩, ⟨.fwd, [1]⟩], outs := [2] }
+def aOpPlan : Plan := { nodes := [⟨.param 0, []⟩, ⟨.expand, [0]⟩, ⟨.fwd, [1]⟩, ⟨.mask, [2]⟩], outs := [3] }
+def dcGradAfterPlan : Plan :=
+  { nodes := [⟨.param 0, []⟩, ⟨.expand, [0]⟩, ⟨.fwd, [1]⟩, ⟨.param 1, []⟩, ⟨.sub, [2, 3]⟩, ⟨.mask, [4]⟩,
+              ⟨.bwd, [5]⟩, ⟨.reduce, [6]⟩], outs := [7] }
+def dcGradTwicePlan : Plan :=
+  { nodes := [⟨.param 0, []⟩, ⟨.expand, [0]⟩, ⟨.fwd, [1]⟩, ⟨.mask, [2]⟩, ⟨.param 1, []⟩, ⟨.sub, [3, 4]⟩,
+              ⟨.mask, [5]⟩, ⟨.bwd, [6]⟩, ⟨.reduce, [7]⟩], outs := [8] }
+def sensGradPlan : Plan :=
+  { nodes := [⟨.param 0, []⟩, ⟨.expand, [0]⟩, ⟨.fwd, [1]⟩, ⟨.mask, [2]⟩, ⟨.param 1, []⟩, ⟨.sub, [3, 4]⟩,
+              ⟨.mask, [5]⟩, ⟨.bwd, [6]⟩, ⟨.mulConjV, [0, 7]⟩], outs := [8] }
+def loglikCorePlan : Plan :=
+  { nodes := [⟨.param 2, []⟩, ⟨.param 0, []⟩, ⟨.expand, [1]⟩, ⟨.mul, [0, 2]⟩, ⟨.fwd, [3]⟩, ⟨.mask, [4]⟩,
+              ⟨.param 1, []⟩, ⟨.mask, [6]⟩, ⟨.mul, [0, 7]⟩, ⟨.sub, [5, 8]⟩, ⟨.bwd, [9]⟩, ⟨.reduce, [10]⟩],
+    outs := [11] }
+def cirimKspacePlan : Plan :=
+  { nodes := [⟨.param 0, []⟩, ⟨.param 1, []⟩, ⟨.sub, [0, 1]⟩, ⟨.mask, [2]⟩, ⟨.sub, [1, 3]⟩, ⟨.param 2, []⟩,
+              ⟨.expand, [5]⟩, ⟨.fwd, [6]⟩, ⟨.sub, [4, 7]⟩], outs := [8] }
+def hardDCPlan : Plan :=
+  { nodes := [⟨.param 1, []⟩, ⟨.param 0, []⟩, ⟨.expand, [1]⟩, ⟨.fwd, [2]⟩, ⟨.maskC, [3]⟩, ⟨.add, [0, 4]⟩,
+              ⟨.pad, [5]⟩], outs := [6] }
+def hardDCPadPlan : Plan :=
+  { nodes := [⟨.param 1, []⟩, ⟨.param 0, []⟩, ⟨.expand, [1]⟩, ⟨.fwd, [2]⟩, ⟨.pad, [3]⟩, ⟨.maskC, [4]⟩,
+              ⟨.add, [0, 5]⟩], outs := [6] }
 
 /-- `B_op` fully inlined; inputs `[x, lambd]` -/
 def bOpPlan : Plan :=
@@ -466,6 +535,15 @@ def ops (P : Problem) : Ops GQ Vec Vec where
   fwd := P.matvecCoils P.F
   bwd := P.matvecCoils P.Bw
   mask := P.applyMask
+def applyMaskC (P : Problem) (y : Vec) : Vec :=
+  (Array.range y.size).map fun idx =>
+    if P.mask[idx % P.mask.size]! == 0 then y[idx]! else GQ.zero
+
+def mulConj (P : Problem) (x w : Vec) : Vec :=
+  (Array.range w.size).map fun idx => GQ.mul w[idx]! (GQ.conj x[idx % P.n]!)
+
+def opsX (P : Problem) : OpsX GQ Vec Vec :=
+  { P.ops with addW := Vec.add, maskC := P.applyMaskC, mulConjVW := P.mulConj }
 end Problem
 
 /-- `rk_norm_sq_new.abs().sqrt().mean() < tol` for batch size 1, decided exactly:
@@ -475,5 +553,23 @@ def stopQ (tol : Q) (rr : GQ) : Bool :=
   let b := rr.im.abs
   let c := (((Q.ofInt 4).mul (tol.mul tol)).sub a).sub b
   Q.lt Q.zero tol && Q.lt Q.zero c && Q.lt ((Q.ofInt 4).mul (a.mul b)) (c.mul c)
+
+/-- rational bounds `lo ≤ √q < hi` with `hi − lo = 1 / (q.den · 10²⁰)` (integer square root) -/
+def sqrtBounds (q : Q) : Q × Q :=
+  let sc : Nat := 100000000000000000000
+  let n := q.num.natAbs * q.den * sc * sc
+  let r := Nat.sqrt n
+  (Q.norm (r : Int) (q.den * sc), Q.norm ((r : Int) + 1) (q.den * sc))
+
+/-- `rk_norm_sq_new.abs().sqrt().mean() < tol` for a batch: `some b` when the rational enclosure of the mean
+decides the test, `none` inside the enclosure's width (never met in practice; the driver reports it). -/
+def stopQB (tol : Q) (rrs : List GQ) : Option Bool :=
+  let comps := rrs.flatMap fun g => [g.re.abs, g.im.abs]
+  let cnt := Q.ofInt comps.length
+  let lo := comps.foldl (fun acc q => acc.add (sqrtBounds q).1) Q.zero
+  let hi := comps.foldl (fun acc q => acc.add (if q.isZero then Q.zero else (sqrtBounds q).2)) Q.zero
+  if Q.lt hi (tol.mul cnt) then some true
+  else if !(Q.lt lo (tol.mul cnt)) then some false
+  else none
 
 end DirectVerif.DataConsistency
